@@ -130,6 +130,39 @@ func main() {
 			usage()
 		}
 		os.Exit(runReplayFile(os.Args[2]))
+	case "maploops":
+		r, err := loadRepo("/repo", nil)
+		if err != nil {
+			fmt.Fprintln(os.Stderr, err)
+			os.Exit(2)
+		}
+		var keys []string
+		for k := range r.funcs {
+			keys = append(keys, k)
+		}
+		sort.Strings(keys)
+		for _, k := range keys {
+			fn := r.funcs[k]
+			var fns []*ssa.Function
+			fns = append(fns, fn)
+			fns = append(fns, fn.AnonFuncs...)
+			for _, f := range fns {
+				for _, b := range f.Blocks {
+					for _, in := range b.Instrs {
+						if rg, ok := in.(*ssa.Range); ok {
+							if _, ok := rg.X.Type().Underlying().(*types.Map); ok {
+								fmt.Printf("%-70s %s\n", k, r.prog.Fset.Position(rg.Pos()))
+							}
+						}
+						if call, ok := in.(*ssa.Call); ok {
+							if c := call.Call.StaticCallee(); c != nil && c.String() == "(*sync.Map).Range" {
+								fmt.Printf("%-70s %s (sync.Map.Range)\n", k, r.prog.Fset.Position(call.Pos()))
+							}
+						}
+					}
+				}
+			}
+		}
 	case "list":
 		fs := flag.NewFlagSet("list", flag.ExitOnError)
 		repo := fs.String("repo", "/repo", "repository")
